@@ -147,6 +147,15 @@ def lin(t: Term):  # noqa: F811  (wrapper adding constant lengths)
         if k is not None:
             return {1: k}
         inner = unsnap(t.args[0])
+        if inner.op == "call" and isinstance(inner.args[0], Term) and inner.args[0].op == "meth" and inner.args[0].args[1] == "read" and len(inner.args[1]) == 1 and not inner.args[2]:
+            # BytesReader.read(n) returns exactly n bytes or raises (C04 / C05 exact-length-reads): the length of what was read is what was asked for
+            rcv = unsnap(inner.args[0].args[0])
+            if rcv.op == "snap":
+                rcv = unsnap(rcv.args[0])
+            if rcv.op == "ref" and len(rcv.args) > 1 and "BytesReader" in str(rcv.args[1]):
+                r_ = lin(inner.args[1][0])
+                if r_ is not None:
+                    return r_
         if inner.op == "bin" and inner.args[0] == "Add":
             from .terms import mk
 
